@@ -155,7 +155,7 @@ def run(ctx):
     # crossover probabilities ASSIGNED FROM A GENETIC MAP (Haldane): the map's distances are -ln(1-2p)/2, so the declared
     # probabilities are the layout's; the matrix was built with other genetic positions and annotated with another map first
     # (a revised map must replace whatever positions the matrix held)
-    def map_annotated_parents(xoprob, first_label=1, kosambi=False, shuffled=False, distal=False):
+    def map_annotated_parents(xoprob, first_label=1, kosambi=False, shuffled=False, distal=False, cleaned=False):
         from pybrops.popgen.gmat.DensePhasedGenotypeMatrix import DensePhasedGenotypeMatrix
         from pybrops.popgen.gmap.StandardGeneticMap import StandardGeneticMap
         from pybrops.popgen.gmap.HaldaneMapFunction import HaldaneMapFunction
@@ -193,6 +193,10 @@ def run(ctx):
             revised = StandardGeneticMap(vrnt_chrgrp=chrgrp[pm], vrnt_phypos=phy[pm], vrnt_genpos=gen[pm], auto_group=False)
         else:
             revised = StandardGeneticMap(vrnt_chrgrp=chrgrp, vrnt_phypos=phy, vrnt_genpos=gen)
+        if cleaned:
+            # the map went through the integrity clean-up (markers whose genetic order contradicts the physical one are removed; markers
+            # at the SAME genetic position -- a recombination cold spot, declared probability 0 -- contradict nothing) and its spline was rebuilt
+            revised.remove_discrepancies(); revised.build_spline()
         if kosambi:
             # Kosambi: r = tanh(2d)/2 for the same declared per-interval probabilities (crossovers in different intervals are
             # drawn independently whatever function assigned them, so non-adjacent pairs still compose by 1-2r)
@@ -213,6 +217,15 @@ def run(ctx):
                 cls(rng=g).mate(pg, np.array([row]), nn, 1, nself=0)
             return source_matrix(pkey, out.mat, row)
         add_stat(cls_name + ".mate[xoprob from a revised genetic map%s]" % (", Kosambi" if kos else ""), xoprob, runm)
+
+    cold = [0.5, 0.25, 0.0, 0.1, 0.0, 0.5, 0.2, 0.0]
+    cls_c = getattr(importlib.import_module("pybrops.breed.prot.mate.TwoWayDHCross"), "TwoWayDHCross")
+    def runc(nn, seed):
+        g = np.random.default_rng(seed)
+        pg = map_annotated_parents(cold, 1, False, False, cleaned=True)
+        out = cls_c(rng=g).mate(pg, np.array([[0, 1]]), 1, nn, nself=0)
+        return source_matrix("2wdh", out.mat, [0, 1])
+    add_stat("TwoWayDHCross.mate[xoprob from a cleaned genetic map with cold spots]", cold, runc)
 
     distal_layout = [0.5, 0.1, 0.2, 0.25, 0.1, 0.05, 0.5, 0.2, 0.1, 0.25]
     cls_d = getattr(importlib.import_module("pybrops.breed.prot.mate.TwoWayDHCross"), "TwoWayDHCross")
